@@ -202,6 +202,8 @@ class BuiltinCalls:
             s = I.to_seq(args[0], state, node)
             if s is None or state.bottom:
                 return Bottom()
+            if "set-order" in s.flags:
+                I.event("set-iteration", node, elem=s.elem, seq=s)
             if name == "tuple":
                 if s.fixed is not None:
                     return TupleV(tuple(s.fixed))
@@ -213,8 +215,12 @@ class BuiltinCalls:
             I.note_undecided("dict(...) constructor with arguments not modelled", node)
             return Top("dict()")
         if ext in ("builtin.set", "builtin.frozenset"):
-            I.event("set-display", node)
-            return Top("set")
+            if not args:
+                return Seq(Length.const(0), Top("empty"), "k", (), None, frozenset({"set-order"}), "set")
+            s = I.to_seq(args[0], state, node)
+            if s is None or state.bottom:
+                return Bottom()
+            return self.make_set(s, node, state)
         if ext == "builtin.object":
             return Opaque("object", True)
         if ext == "builtin.type":
@@ -662,6 +668,8 @@ class BuiltinCalls:
         if s is None or state.bottom:
             return Bottom()
         start = args[1] if len(args) > 1 else kwargs.get("start", replace(lift_const(0), deg=POLY))
+        if "set-order" in s.flags:
+            I.event("set-iteration", node, elem=s.elem, seq=s)
         e = subst_val(s.elem, {s.kvar: STAR}) if s.length.hi != 0 else replace(lift_const(0), deg=POLY)
         if s.fixed is not None:
             acc = start
@@ -896,6 +904,36 @@ class BuiltinCalls:
         if s is None or state.bottom:
             return Bottom()
         return subst_val(s.elem, {s.kvar: STAR})
+
+    def make_set(self, s: Seq, node, state) -> Seq:
+        """A set built from a sequence: the distinct elements, in an order that depends on their hashes. For a listed sequence of
+        numbers whose pairwise equality is decided (explicit mode) the distinct elements are listed; otherwise one summary element
+        at an unknown position and a length between 1 and the source's."""
+        I = self.I
+        I.event("set-display", node, src=s)
+        if s.fixed is not None and all(isinstance(x, Num) for x in s.fixed):
+            reps: List[Num] = []
+            decided = True
+            for x in s.fixed:
+                dup = False
+                for r in reps:
+                    st = state.copy()
+                    eq = I.ops.compare(ast.Eq(), x, r, node, st)
+                    if eq.tv is True:
+                        dup = True
+                        break
+                    if eq.tv is None:
+                        decided = False
+                if not dup:
+                    reps.append(x)
+            if decided:
+                elem: Val = Bottom()
+                for x in reps:
+                    elem = join_val(elem, x)
+                return Seq(Length.const(len(reps)), elem if reps else Top("empty"), "k", tuple(reps), None, frozenset({"set-order"}), "set")
+        lo = 1 if s.length.lo >= 1 else 0
+        return Seq(Length(None, lo, s.length.hi), subst_val(s.elem, {s.kvar: STAR}) if s.length.hi != 0 else Top("empty"), s.kvar, None, s.witness,
+                   frozenset(s.flags) | {"set-order", "reordered"}, "set")
 
     def b_sorted(self, args, kwargs, node, state):
         I = self.I
